@@ -90,23 +90,23 @@ func genList(r *corr.Rand) (setup []string, threads [][]string) {
 		if t == 0 || r.Chance(40) {
 			ops = append(ops, "open "+h("/d"))
 			for k := 0; k < 2+r.Intn(3); k++ {
-				ops = append(ops, corr.Pick(r, []string{"h.readdir 0 -1", "h.readdirnames 0 -1", "h.readdir 0 2", "h.stat 0"}))
+				ops = append(ops, corr.Pick(r, []string{"h.readdir 0 -1", "h.readdirnames 0 -1", "h.readdir 0 2", "h.stat 0", "h.readdirfs 0 -1", "h.readdirfs 0 2", "h.readdirfs 0 -1"}))
 			}
 		} else {
 			for k := 0; k < 2+r.Intn(4); k++ {
 				switch q := r.Intn(100); {
-				case q < 55:
+				case q < 45:
 					ops = append(ops, "rename "+h(corr.Pick(r, in))+" "+h(corr.Pick(r, in)))
-				case q < 65:
+				case q < 55:
 					if dirRenamed { // a directory goes onto an unused name: once per program
 						ops = append(ops, "stat "+h("/d/t"))
 					} else {
 						dirRenamed = true
 						ops = append(ops, "rename "+h("/d/s")+" "+h("/d/t"))
 					}
-				case q < 75:
+				case q < 65:
 					ops = append(ops, "create "+h(corr.Pick(r, in)))
-				case q < 85:
+				case q < 72:
 					ops = append(ops, "remove "+h(corr.Pick(r, in)))
 				default:
 					ops = append(ops, "chmod "+h(corr.Pick(r, in))+" 384")
